@@ -21,6 +21,7 @@ import (
 	"go/token"
 	"go/types"
 	"reflect"
+	"strconv"
 	"sync"
 
 	"golang.org/x/tools/go/ssa"
@@ -120,8 +121,46 @@ func assignTo(dst types.Type, rv value) value {
 	return v
 }
 
+// reflectTypeString renders a type the way reflect.Type.String() does
+// ("interface {}", "struct { F T \"tag\" }", pkg.Name), which differs from
+// go/types' rendering in spacing and in the spelling of the empty interface.
 func reflectTypeString(t types.Type) string {
-	return types.TypeString(t, func(p *types.Package) string { return p.Name() })
+	qual := func(p *types.Package) string { return p.Name() }
+	switch t := types.Unalias(t).(type) {
+	case *types.Pointer:
+		return "*" + reflectTypeString(t.Elem())
+	case *types.Slice:
+		return "[]" + reflectTypeString(t.Elem())
+	case *types.Array:
+		return "[" + strconv.FormatInt(t.Len(), 10) + "]" + reflectTypeString(t.Elem())
+	case *types.Map:
+		return "map[" + reflectTypeString(t.Key()) + "]" + reflectTypeString(t.Elem())
+	case *types.Interface:
+		if t.NumMethods() == 0 && t.NumEmbeddeds() == 0 {
+			return "interface {}"
+		}
+	case *types.Struct:
+		if t.NumFields() == 0 {
+			return "struct {}"
+		}
+		out := "struct {"
+		for i := 0; i < t.NumFields(); i++ {
+			if i > 0 {
+				out += ";"
+			}
+			f := t.Field(i)
+			out += " "
+			if !f.Embedded() {
+				out += f.Name() + " "
+			}
+			out += reflectTypeString(f.Type())
+			if tag := t.Tag(i); tag != "" {
+				out += " " + strconv.Quote(tag)
+			}
+		}
+		return out + " }"
+	}
+	return types.TypeString(t, qual)
 }
 
 func reflectTypeName(t types.Type) string {
